@@ -233,6 +233,30 @@ func rewrite(path string, src []byte, pkg string) ([]byte, bool, error) {
 			})
 		}
 	}
+	// blocking network I/O issued by pike itself is a scheduling point: the synchronous health check (a TCP or HTTP
+	// exchange with every server of the pool) in package upstream
+	if pkg == "upstream" {
+		ast.Inspect(f, func(n ast.Node) bool {
+			b, ok := n.(*ast.BlockStmt)
+			if !ok {
+				return true
+			}
+			var out []ast.Stmt
+			for _, st := range b.List {
+				if es, ok := st.(*ast.ExprStmt); ok {
+					if ce, ok := es.X.(*ast.CallExpr); ok {
+						if se, ok := ce.Fun.(*ast.SelectorExpr); ok && se.Sel.Name == "DoHealthCheck" {
+							out = append(out, &ast.ExprStmt{X: &ast.CallExpr{Fun: &ast.SelectorExpr{X: ast.NewIdent("vsched"), Sel: ast.NewIdent("Yield")}, Args: []ast.Expr{&ast.BasicLit{Kind: token.INT, Value: "77"}}}})
+							needSched = true
+						}
+					}
+				}
+				out = append(out, st)
+			}
+			b.List = out
+			return true
+		})
+	}
 	if pkg == "cache" {
 		var ferr error
 		selectOK := map[*ast.SelectStmt]bool{}
